@@ -21,8 +21,8 @@ func fmtDpkg() *format {
 			{Name: "lib+x", Version: "1:2.0-1", Tag: "plus-name-epoch"},
 			{Name: "a.b-c", Version: "0.1~rc1-1", Tag: "dotted-name-tilde"},
 			{Name: "libstdc++6", Version: "12.2.0-14", Tag: "plusplus"},
-			{Name: "python3.11", Version: "3.11.2-6+deb12u1", Tag: "digit-dot"},
-			{Name: "0ad", Version: "0.0.26-3", Tag: "digit-start"},
+			{Name: "0ad1", Version: "0.0.26-3", Tag: "name+version-concat-equals-digit-start"},
+			{Name: "0ad", Version: "10.0.26-3", Tag: "digit-start"},
 		},
 		dims: []dim{
 			{name: "trail", labels: []string{"blank-line-after-last", "no-newline", "one-newline"}},
